@@ -146,3 +146,22 @@ Theorem C08_new_types_need_new_firmware : forall ver t rest,
   (ver < 8 -> (t = 11 \/ t = 12) -> fw_decode ver 8 0 (t :: rest) = None).
 Proof. exact new_types_need_new_firmware. Qed.
 Print Assumptions C08_new_types_need_new_firmware.
+
+(* 13. Float32 resolution: a caller's float whose value is a normal binary32 number (-1)^s * k * 2^e (k a 24-bit
+   mantissa; as a binary64 its mantissa is k * 2^29 = widen k and its exponent e - 29) is transmitted without
+   error, as the IEEE-754 binary32 encoding of that number; so are zeros, infinities and NaN.  Every other
+   finite float goes through the standard library's round-to-nearest-even (binary_round 24 128) or raises
+   OverflowError when that rounds to infinity (definition of f32_of_sf64). *)
+Theorem C08_float32_values_exact : forall s k e,
+  digits2_pos k = 24%positive -> -149 <= e <= 104 ->
+  f32_of_sf64 (S754_finite s (widen k) (e - 29)) = Ok (sign32 s + ((e + 150) * 8388608 + (Zpos k - 8388608))) /\
+  8388608 <= Zpos k < 16777216 /\ 1 <= e + 150 <= 254.
+Proof. exact f32_exact. Qed.
+Print Assumptions C08_float32_values_exact.
+
+Theorem C08_float32_specials_exact :
+  (forall s, f32_of_sf64 (S754_zero s) = Ok (sign32 s)) /\
+  (forall s, f32_of_sf64 (S754_infinity s) = Ok (sign32 s + inf32)) /\
+  f32_of_sf64 S754_nan = Ok nan32.
+Proof. exact f32_exact_special. Qed.
+Print Assumptions C08_float32_specials_exact.
